@@ -21,6 +21,9 @@ chk("C11","exploration","copy_from / composite extend are operations of the same
 chk("C18","exploration","str() of every observed state compared with the reference renderer (floats masked); C++ half pending the peer",TB,H+"; oracle: reference renderer","sim-hist","3/C18")
 chk("C19","exploration","for every observed state the two byte orders are compared range by range using the reference byte map (scalars reversed, bytes equal, padding zero); C++ half pending the peer",TB,H+"; oracle: reference byte map","sim-hist","3/C19")
 chk("C06","fault_enumeration","for every visited encoding the fault set is enumerated completely up to the stated sizes (every prefix <=256 B, every bit <=32 B, every control word x boundary values) and sampled beyond; the real decoder runs under a step clock and a memory meter; outcome must be return or ProphyError, and a returned message must re-encode and be a decode fixpoint",TB+"; step/memory budgets are committed constants (about 40x the worst intact decode)","deterministic simulation with fault injection: stored-message link faults (truncation, extension, bit flips, control-word corruption, random replacement) x simulated clock (line events) x memory meter","sim-link-py","3/C06")
+O = "deterministic simulation: the schedule is the order in which definitions reach the compiler; seeded permutations of an acyclic definition set rendered as isar XML, real parser + topological_sort + model + Python generator under a step clock"
+chk("C15","exploration","seeded search over (definition graph, permutation) pairs: output is a permutation of the input names, every definition after what it needs (relation computed from the AST), generated module imports, layouts equal the reference and each other, sort stays within the step budget",TB,O,"sim-order","3/C15")
+chk("C04","exploration","prophyc's model nodes (size, alignment, stiffness) and the generated Python classes' statics are compared with the reference layout for every struct/union in every permutation of S-ORDER and in every world built by S-HIST; every encoding of a fixed type has the static length. The C++ encoded_byte_size constant is compared in the C++ peer arm",TB,O+"; plus the layout invariant evaluated at world construction of the history simulation","sim-order","3/C04")
 claimed = set(c["property_id"] for c in checks)
 na = [{"property_id": k, "reason": v} for k, v in sorted(NA.items())]
 for pid in ["C03","C04","C05","C06","C07","C12","C13","C15","C16","C20"]:
@@ -28,7 +31,7 @@ for pid in ["C03","C04","C05","C06","C07","C12","C13","C15","C16","C20"]:
         na.append({"property_id": pid, "reason": "check under construction in this round (simulation designed in DESIGN.md, not yet built); will be claimed when its check exists"})
 m = {"version": 1, "setup_cmd": "./setup",
  "hooks": {"guard": "PROPHY_VERIF", "enable": "no source hook exists: every seam is a module global of prophyc replaced from outside (sim/fs.py) or a harness-supplied argument", "baseline_off_cmd": "cd /repo && /venv/bin/python -m pytest -ra -q -p no:cacheprovider --timeout=900 --continue-on-collection-errors", "source_commits": [], "add_only": True},
- "engines": [{"name": "sim-link-py", "path": "props/linkpy.py", "serves_properties": ["C06"], "kind_free_text": "fault-injecting link between reference encoder and the real Python decoder under a step clock"}, {"name": "sim-hist", "path": "props/pymsg.py", "serves_properties": ["C01","C02","C10","C11","C18","C19"], "kind_free_text": "seeded history simulation of the Python message API against a reference model"}],
+ "engines": [{"name": "sim-order", "path": "props/order.py", "serves_properties": ["C15","C04"], "kind_free_text": "definition-order simulation: permutations of isar definition sets through the real compiler"}, {"name": "sim-link-py", "path": "props/linkpy.py", "serves_properties": ["C06"], "kind_free_text": "fault-injecting link between reference encoder and the real Python decoder under a step clock"}, {"name": "sim-hist", "path": "props/pymsg.py", "serves_properties": ["C01","C02","C10","C11","C18","C19"], "kind_free_text": "seeded history simulation of the Python message API against a reference model"}],
  "checks": checks, "not_applicable": sorted(na, key=lambda x: x["property_id"]),
  "notes": "VERIF_SEED selects the seed (default 0); ./check <id> --replay <file> re-executes a minimised plan; exit 2 = HARNESS-ERROR"}
 json.dump(m, open("/verif/MANIFEST.json","w"), indent=1)
